@@ -6,7 +6,7 @@ globals().update(
         pid="C10",
         props=["JaqalProofs/Props/C10.lean", "JaqalProofs/Props/ParsedC10.lean", "JaqalProofs/Props/ParsedEx.lean"],
         targets=["JaqalProofs.Props.C10", "JaqalProofs.Props.ParsedC10", "JaqalProofs.Props.ParsedEx"],
-        diffs=[("harness.agents.c10_diff", 500, 1500), ("harness.agents.c10_scale", 88, 300)],
+        diffs=[("harness.agents.c10_diff", 500, 1500), ("harness.agents.c10_scale", 88, 300), ("harness.agents.c10_traps", 350, 2000)],
         trusted=[
             STD_TRUST,
             "composition of the pass models (ExpandMacros, ExpandSubcircuits, FillIn) and of parse_jaqal_string's flag handling in JaqalModel/Model/Passes.lean; the pass orders of parse_jaqal_string / run_jaqal_circuit / parse_jaqal_output_list are REGENERATED from the Python ASTs on every run (harness/agents/c10_extract.py) and compared with the model's `pipelines` table",
